@@ -453,12 +453,13 @@ fn exec_hist(case: &HistCase) -> Outcome {
 	let _ = std::fs::create_dir_all(&empty_dir);
 	opts.env.push(("SSL_CERT_FILE".into(), sys_file.display().to_string()));
 	opts.env.push(("SSL_CERT_DIR".into(), empty_dir.display().to_string()));
+	// every attempt ends with a post-operation hook, which is held while the requests of that attempt are counted and the file is changed.
+	// (The rule is set before the daemon exists: with an unusable root file the first attempt fails within a millisecond.)
+	coll.hold_when(Box::new(|r, _| bb::is_post(r)));
 	let mut daemon = match Daemon::spawn(&opts) {
 		Ok(d) => d,
 		Err(e) => return Outcome::Infra(e),
 	};
-	// every attempt ends with a post-operation hook, which is held while the requests of that attempt are counted and the file is changed
-	coll.hold_when(Box::new(|r, _| bb::is_post(r)));
 	let d = format!("{case:?}");
 	let mut seen = 0usize;
 	let mut result = None;
